@@ -234,6 +234,19 @@ pub fn main(args: &Args) -> i32 {
             }
         }
     }
+    // the enums that ship with the repository, as written (incl. the suite's must-fail data): no panic, and what is
+    // accepted parses
+    for (origin, src) in model::harvest::harvest_raw() {
+        let d = derive_rust(src.clone());
+        run.eval(1);
+        run.count("harvested_sources", 1);
+        if let Err(msg) = judge(&src, None, true, &d) {
+            run.violations = 1;
+            report_violation("C19", &args.replay_dir, &json!({"property": "C19", "tier": "G", "origin": origin, "source": src, "must_reject": null, "fragments_ok": true, "findings": [{"property": "C19", "what": msg}]}));
+            run.write_evidence(&args.evidence);
+            return 1;
+        }
+    }
     let res = drive(&soup_strategy(), cases, args.seed ^ 0xC19, 800, &mut run, |c, run| check(c, run));
     let code = match res {
         DriveResult::Pass => 0,
